@@ -1182,11 +1182,13 @@ func (t *tr) stmt(s ast.Stmt) []term.Node {
 		out := []term.Node{t.tok(term.Id(x.Label.Name)), t.op(":")}
 		if es, ok := x.Stmt.(*ast.EmptyStmt); ok {
 			if es.Implicit {
-				t.feat("label:before-brace")
-			} else {
-				t.feat("stmt:explicit-empty-dropped")
+				t.feat("label:before-brace") // only "}" can follow: Id(l).Op(":")
+				return out
 			}
-			return out
+			// `L: ;` - the empty statement must stay: a case clause or another statement
+			// may follow, and a label needs a statement (gofmt keeps this ";" too)
+			t.feat("label:explicit-empty")
+			return append(out, t.op(";"))
 		}
 		t.feat("label")
 		return t.add(out, t.stmt(x.Stmt))
